@@ -168,6 +168,10 @@ def step (s : St) (toks : List String) : St × String :=
       -- push: the bytes are still on their way when the op returns; nothing is observed
       (s, if op = "push" then "pushed" else s.obs)
     | _, _ => (s, "bad-op")
+  | ["pause", ms] =>
+    -- time is not an event: an idle period changes nothing (the only deadline in the model is the serving
+    -- loop's, op `outlive`)
+    if s.phase ≠ 1 ∨ ms.toNat?.isNone then (s, "bad-op") else (s, "paused")
   | ["rd", who, how] =>
     -- the speed of an end's reader changes when bytes arrive, not what arrives
     if s.phase ≠ 1 ∨ (who ≠ "c" ∧ who ≠ "t") ∨ (how ≠ "eager" ∧ how ≠ "slow") then (s, "bad-op") else (s, "rd")
